@@ -258,6 +258,13 @@ impl DirEntry {
             }
             stream_len = 0;
         }
+        // A stream of length zero owns no sectors, whatever its starting
+        // sector field says (some CFB implementations leave zero or a stale
+        // sector number there); the code that later writes to the stream
+        // relies on END_OF_CHAIN in that case.
+        if obj_type == ObjType::Stream && stream_len == 0 {
+            start_sector = consts::END_OF_CHAIN;
+        }
 
         Ok(DirEntry {
             name,
